@@ -10,6 +10,7 @@ mod byteseng;
 mod callseng;
 mod common;
 mod ctxeng;
+mod dualeng;
 mod helperseng;
 mod isa;
 mod isaeng;
@@ -17,6 +18,7 @@ mod memeng;
 mod refmodel;
 mod refverif;
 mod text;
+mod transcript;
 mod vm;
 
 use common::*;
@@ -37,6 +39,7 @@ fn run_engine(prop: &str, s: &mut Sink) {
         "C09" => ctxeng::run(s),
         "C10" => apieng::run(s),
         "C19" => helperseng::run(s),
+        "C20" => dualeng::run(s),
         "C03" => isaeng::run(s, vm::Eng::Jit),
         "C04" => isaeng::run(s, vm::Eng::Cl),
         "C05" => byteseng::run(s, byteseng::Mode::C05),
@@ -65,6 +68,7 @@ pub fn replay_value(rp: &Value) -> Vec<String> {
         "helper-call" => callseng::replay_c08(rp),
         "local-call" => callseng::replay_c07(rp),
         "helper" => helperseng::replay(rp),
+        "dual" => dualeng::replay(rp),
         "verify" => byteseng::replay_verify(rp),
         "interp-total" => byteseng::replay_interp_total(rp),
         "compile-total" => byteseng::replay_compile_total(rp),
